@@ -209,6 +209,18 @@ func cause(c *Case) string {
 	return ""
 }
 
+// hasTailCall: some function body contains a return_call / return_call_indirect opcode byte.
+func hasTailCall(b []byte) bool {
+	for _, bd := range WalkModule(b).Bodies {
+		for i := bd[0]; i < bd[1] && i < len(b); i++ {
+			if b[i] == 0x12 || b[i] == 0x13 {
+				return true
+			}
+		}
+	}
+	return false
+}
+
 func violate(c *Case, kind, sig, what string, expected, actual any) {
 	rep.Violate(hx.Violation{Kind: kind, Signature: sig, What: what, Input: c, Expected: expected, Actual: actual})
 }
@@ -323,7 +335,17 @@ func judge(c *Case, o Outcome, alone bool) string {
 			if strings.HasPrefix(in, "compile-panic") {
 				continue
 			}
-			sig := "C03:accepted-module-internal-failure:" + e.Name + ":" + strings.ReplaceAll(normalize(in), " ", "-")
+			// the signature names the failure, not the export that happened to trigger it
+			what := in
+			if strings.HasPrefix(what, "call ") {
+				if i := strings.Index(what, "]: "); i > 0 {
+					what = "call: " + what[i+3:]
+				}
+			}
+			sig := "C03:accepted-module-internal-failure:" + e.Name + ":" + strings.ReplaceAll(normalize(what), " ", "-")
+			if c.Feat == "v2x" && e.Name == "interpreter" && strings.Contains(in, "slice bounds out of range") && hasTailCall(c.bin) {
+				sig = "F40:tail-call-to-callee-with-other-results-accepted:interpreter-runtime-error-slice-bounds"
+			}
 			if e.Name == "compiler" && strings.Contains(in, "index out of range") && strings.Contains(in, "moduleEngine).NewFunction") {
 				// one defect, two entry points: api.Module.ExportedFunction of a re-exported host function,
 				// and InstantiateModule when the start function is an imported host function
@@ -492,6 +514,9 @@ func loadCorpus() []*Case {
 }
 
 func replayFile(path string) []*Case {
+	if _, err := os.Stat(path); err != nil && !filepath.IsAbs(path) && os.Getenv("VERIF_ROOT") != "" {
+		path = filepath.Join(os.Getenv("VERIF_ROOT"), path)
+	}
 	raw, err := os.ReadFile(path)
 	if err != nil {
 		hx.Fatal("%v", err)
